@@ -23,6 +23,21 @@ func Run(c *hx.Ctx) {
 		c.Emit("C16", cs, impl)
 		return
 	}
+	if len(c.Args) > 1 && c.Args[0] == "hlprobe" { // mosnh C16 hlprobe <script> [u h word0]: one dispatch-loop history
+		u, h, w := uint32(1), uint32(1), uint64(0)
+		if len(c.Args) > 4 {
+			fmt.Sscan(c.Args[2], &u)
+			fmt.Sscan(c.Args[3], &h)
+			fmt.Sscan(c.Args[4], &w)
+		}
+		cs, impl := runDispatch(u, h, w, c.Args[1])
+		c.Emit("C16", cs, impl)
+		return
+	}
+	if len(c.Args) > 0 && c.Args[0] == "hl" { // mosnh C16 hl: the dispatch-loop part alone
+		runDispatchKind(c)
+		return
+	}
 	if len(c.Args) > 0 && c.Args[0] == "lc" { // mosnh C16 lc: the life-cycle part alone
 		runLifecycleKind(c)
 		return
@@ -30,5 +45,6 @@ func Run(c *hx.Ctx) {
 	runFlags(c)
 	runAlloc(c)
 	runChecker(c)
+	runDispatchKind(c)
 	runLifecycleKind(c)
 }
